@@ -219,4 +219,17 @@ def argStarOk (s : ArgsShape) : Bool :=
 def nParams (s : ArgsShape) : Nat :=
   s.posonly + s.args + (if s.vararg then 1 else 0) + s.kwonly + (if s.kwarg then 1 else 0)
 
+/-! ### `parse_ImportFrom_name` / `parse__ImportFrom_names`: "the names carry no parentheses of their own" -/
+
+/-- `nn.end_col_offset != import_.end_col_offset or nn.end_lineno != import_.end_lineno` negated: the last alias ends exactly
+where the wrapper statement `from . import \\\n{src}` ends (a closing parenthesis after it would end the statement later) -/
+def endsWithStmt (lastAlias stmt : Loc) : Bool :=
+  lastAlias.endCol == stmt.endCol && lastAlias.endLineno == stmt.endLineno
+
+/-- verdict of `parse_ImportFrom_name` once CPython has parsed the wrapper: exactly one alias, no own parentheses -/
+def importFromNameOk (nNames : Nat) (lastAlias stmt : Loc) : Bool := nNames == 1 && endsWithStmt lastAlias stmt
+
+/-- `(l1, c1) < (l2, c2)` -/
+def posLt (l1 c1 l2 c2 : Int) : Bool := decide (l1 < l2) || (l1 == l2 && decide (c1 < c2))
+
 end Pfst.ParseWrap
